@@ -1,6 +1,7 @@
 package main
 
 import (
+	"runtime"
 	"os"
 	"errors"
 	"fmt"
@@ -23,9 +24,10 @@ import (
 // data race the -race build reports.
 
 type readRes struct {
-	mt  int
-	p   []byte
-	err error
+	mt   int
+	p    []byte
+	err  error
+	ping bool // a ping control frame: handled inside the read call, as gorilla/websocket does
 }
 
 type fakeWS struct {
@@ -37,6 +39,7 @@ type fakeWS struct {
 	closes    int
 	reads     chan readRes
 	closeH    func(code int, text string) error
+	pingH     func(appData string) error
 	wCanary   int
 	rCanary   int
 	inRead    int
@@ -75,6 +78,9 @@ func (f *fakeWS) WriteMessage(mt int, data []byte) error {
 	echo := mt == websocket.CloseMessage && f.echoClose && !fail && !closed
 	f.mu.Unlock()
 	f.ev(fmt.Sprintf("wm%d:%d", f.id, mt))
+	// a frame write takes a moment: give other goroutines the chance to show up inside it
+	runtime.Gosched()
+	runtime.Gosched()
 	if echo {
 		select {
 		case f.reads <- readRes{err: &websocket.CloseError{Code: websocket.CloseNormalClosure, Text: "bye"}}:
@@ -110,6 +116,23 @@ func (f *fakeWS) ReadMessage() (int, []byte, error) {
 	}
 	f.mu.Unlock()
 	r := <-f.reads
+	for r.ping {
+		// gorilla/websocket runs the ping handler on the reading goroutine and goes on reading; its built-in
+		// handler answers through WriteControl, which the library makes safe alongside other writers, so here:
+		// nothing unless the code under test installed a handler of its own
+		f.mu.Lock()
+		ph := f.pingH
+		f.mu.Unlock()
+		if ph != nil {
+			if err := ph("p"); err != nil {
+				f.mu.Lock()
+				f.inRead--
+				f.mu.Unlock()
+				return 0, nil, err
+			}
+		}
+		r = <-f.reads
+	}
 	f.mu.Lock()
 	f.inRead--
 	h := f.closeH
@@ -181,7 +204,7 @@ func (f *fakeWS) SetReadLimit(int64)                                           {
 func (f *fakeWS) CloseHandler() func(code int, text string) error              { return f.closeH }
 func (f *fakeWS) SetCloseHandler(h func(code int, text string) error)          { f.mu.Lock(); f.closeH = h; f.mu.Unlock() }
 func (f *fakeWS) PingHandler() func(string) error                              { return nil }
-func (f *fakeWS) SetPingHandler(func(string) error)                            {}
+func (f *fakeWS) SetPingHandler(h func(string) error)                          { f.mu.Lock(); f.pingH = h; f.mu.Unlock() }
 func (f *fakeWS) PongHandler() func(string) error                              { return nil }
 func (f *fakeWS) SetPongHandler(func(string) error)                            {}
 func (f *fakeWS) UnderlyingConn() net.Conn                                     { return nil }
